@@ -24,6 +24,7 @@ func init() {
 	registerRule("R25", func(c *Ctx) { c.run("R21") })
 	registerRule("R30", func(c *Ctx) { c.run("R21") })
 	registerRule("R35", ruleR35)
+	registerRule("R42", ruleR42)
 	registerRule("R36", ruleR36)
 	registerRule("R41", ruleR41)
 	registerRule("R39", ruleR39R40)
@@ -78,7 +79,7 @@ func init() {
 		Explain:    "R09 minimum/maximum pick the first/last occupied slot of the same slot domain, with the same occupancy test and child expression, that the traversals enumerate (8 arms); R12 Minimum/Maximum report 'none' exactly on a nil result; R27/R28 TopK/BottomK count per pass and stop after yield returned false, ranging over Backward/All respectively (call-target check); R06 casts under tag facts.",
 		NotDecided: "Nothing beyond C02's value-level remainder (sortedness inside 4/16-slot nodes)."})
 	registerProp(&propSpec{ID: "C08", Level: "other", DesignRef: "§4 C08",
-		Rules:      []string{"R16", "R17", "R08", "R01", "R02", "R03", "R04", "R05", "R06", "R09", "R12", "R26", "R39", "R40", "R36"},
+		Rules:      []string{"R16", "R17", "R08", "R01", "R02", "R03", "R04", "R05", "R06", "R09", "R12", "R26", "R39", "R40", "R36", "R42"},
 		Explain:    "collation.go is analysed as the sixth copy of the tree algorithm by every kind-generic rule (R01 guarded key indexes, R02 equality on the ORIGINAL string – not the sort key – dominates every success, R03/R04 link/size automaton, R06 tag casts, R09 inlined lookups, R12 nil flows), plus R16: the leaf pairs (key,keyLen) with the original bytes and (colKey,colKeyLen) with the sort key, descent uses only the sort key, restoreKey returns the original, WithCollator stores into the field that sort-key generation reads; R08 one normalisation per role at all entry points.",
 		NotDecided: "That x/text sort keys order like Collator.Compare and are prefix-free (library contract, recorded as assumption)."})
 	registerProp(&propSpec{ID: "C09", Level: "other", DesignRef: "§4 C09",
@@ -102,7 +103,7 @@ func init() {
 		Explain:    "R06 a reference is only ever read through the layout its tag names (120 casts under tag facts, 48 reference literals pairing pointer type and tag, pool assertions); R07 every kind switch has one arm per inner kind and a panicking default; R21 every grow/shrink copies every header field (prefixLen, childrenLen, prefix) to the replacement before releasing the old node; R22 capacity guards/thresholds are coherent with the array lengths; R23 node fields are written only by the node layer and the Insert split paths; R03/R04 the number of linked leaves moves in step with size on every path; R24 nodes are released only after the slot is relinked.",
 		NotDecided: "That prefix lengths/bytes equal the common extension of the keys below a node after split and merge (byte arithmetic), and history independence of the shape."})
 	registerProp(&propSpec{ID: "C12", Level: "other", DesignRef: "§4 C12",
-		Rules:      []string{"R24", "R25", "R30", "R06", "R14"},
+		Rules:      []string{"R24", "R25", "R30", "R06", "R14", "R42"},
 		Explain:    "Pool typestate for each of the 7 releases: the node is cleared in the statement before Put, clear() resets every field of the struct (header included), the node is not used after release, the slot referencing it was overwritten before, its type matches the pool index, and every Get is asserted to the layout of its index (R24, R06); the only per-tree state is {root, size, codec} written only by Insert/Delete, and the root-leaf delete stores the zero reference, so an emptied tree equals a new one (R25, R14); the only package-level state is the sync.Pool array used through Get/Put (R30) – hence trees share no mutable memory except cleared, unreferenced pool objects.",
 		NotDecided: "Nothing value-level beyond C01/C11; sync.Pool's own behaviour is trusted."})
 	registerProp(&propSpec{ID: "C18", Level: "other", DesignRef: "§4 C18",
@@ -118,7 +119,7 @@ func init() {
 		Explain:    "R29 effect analysis of the 111 functions reachable (call graph incl. method values, interface fan-out, closures) from Search/Minimum/Maximum/Size/All/Backward/Prefix/Range/TopK/BottomK of every kind: every store and every call that writes through an argument targets a local value or memory the function allocated itself – no store reaches tree memory, a captured variable or a package variable; R02/R04 every mutation of Delete is dominated by the successful full-key comparison and a false return carries no tree write; R03 the overwrite path of Insert carries the value store and nothing else (no node store without a split); R14/R25/R23 only Insert/Delete write size, root and node fields.",
 		NotDecided: "Named exception (printed in evidence): the collation codec scratch (CollationOrderKey.src, its collate.Buffer and the collator's iterators) is written by queries of collation trees; it is outside the node graph and unobservable through the Tree API."})
 	registerProp(&propSpec{ID: "C16", Level: "other", DesignRef: "§4 C16",
-		Rules:      []string{"R30", "R24", "R25", "R29"},
+		Rules:      []string{"R30", "R24", "R25", "R29", "R42"},
 		Explain:    "Static race freedom = no conflicting access pair exists: R30 the only package-level variables are the sync.Pool array (used only through Get/Put) and read-only tables; R24 pooled nodes are completely cleared and unreferenced by the releasing tree; R25 per-tree state is {root, size, codec}; R29 queries of byte-string, numeric and compound trees store nothing that outlives the call, so concurrent readers of one quiescent tree only read. Collation trees are correctly not covered (their queries write codec scratch) – exactly the property's carve-out.",
 		NotDecided: "The Go memory model guarantees of sync.Pool (trusted); a user-supplied compound codec with shared mutable state (premise of the property)."})
 	registerProp(&propSpec{ID: "C17", Level: "other", DesignRef: "§4 C17",
